@@ -119,6 +119,22 @@ fn c02_wilson_ratio_matches_counts() {
     assert!(same_outcome(&r, &want), "the ratio k/n does not map back to the count k");
     kani::cover!(n == 100 && k == 29);
 }
+// thorough tier: the same statement for populations up to 2048 (4096 was tried: 38 min, too close to the per-harness limit)
+// BOUNDED: populations n <= 2048
+#[kani::proof]
+#[kani::solver(kissat)]
+#[kani::stub(crate::proportion::ci_wilson, wilson_probe)]
+fn c02t_wilson_ratio_matches_counts_2048() {
+    let c = any_confidence();
+    let n: usize = kani::any();
+    let k: usize = kani::any();
+    kani::assume(n >= 1 && n <= 2_048 && k >= 1 && k <= n);
+    let ratio = k as f64 / n as f64;
+    let r = ci_wilson_ratio(c, n, ratio);
+    let want = ci_wilson(c, n, k);
+    assert!(same_outcome(&r, &want), "the ratio k/n does not map back to the count k");
+    kani::cover!(n == 2048 && k == 587);
+}
 #[kani::proof]
 #[kani::stub(crate::stats::z_value, z_const)]
 fn c02_wilson_ratio_rejects_nonpositive() {
